@@ -72,6 +72,8 @@ class FakeNet:
             self.schedule.append(p)
         self._pi = 0
         self._sock_seq = 0
+        self.latency = 0             # seconds the virtual clock advances per recv (needs .clock)
+        self.clock = None
         self.track_open = True
         self.max_open = 0
         self.max_open_at = None
@@ -365,6 +367,10 @@ class FakeSocket:
                 self.rx.clear()
             # timeout / interruptions: whatever is queued stays queued - it arrives "later"
             net._raise(f, self)
+        if n <= 0:
+            return b""                  # like a real socket: a zero-length read returns nothing
+        if net.latency and net.clock is not None:
+            net.clock.advance(net.latency)      # the call spends time waiting for the network
         size, intr = net.next_piece()
         if intr:
             raise InterruptedError(errno.EINTR, "Interrupted system call")
